@@ -925,3 +925,8 @@ package machine
 //@   loop 2 invariant low:  forall p int :: 0 <= p && p < (idx2 == 0 ? len(orig) : toCloseIdx[idx2 - 1]) ==> sm.whenQueue[p] == orig[p]
 //@   loop 2 invariant high: idx2 > 0 ==> (forall p int :: toCloseIdx[idx2 - 1] <= p && p < len(sm.whenQueue) ==> sm.whenQueue[p].tick > queueTick)
 //@   loop 2 invariant cap:  idx2 > 0 ==> toCloseIdx[idx2 - 1] <= len(sm.whenQueue)
+
+//@ func (s *Step) GetFromState(index S) (r string)
+//@   trusted debug-trace accessor
+//@ func (s *Step) GetToState(index S) (r string)
+//@   trusted debug-trace accessor
